@@ -88,5 +88,5 @@ Init == \/ fam = "ops" /\ c \in OpTrees
         \/ fam = "ctor" /\ c \in CtorTrees
 Next == fam = "none" /\ UNCHANGED vars
 Spec == Init /\ [][Next]_vars
-Emit == PrintT(<<"CASE", ToJson([e |-> c, ty |-> "SKIP", vals |-> <<>>, kvals |-> <<>>, r0 |-> Render(c, FALSE), r1 |-> Render(c, TRUE)])>>)
+Emit == PrintT(<<"CASE", ToJson([e |-> c, ty |-> "SKIP", vals |-> <<>>, kvals |-> <<>>, r0 |-> Render(c, 0), r1 |-> Render(c, 1), r2 |-> Render(c, 2)])>>)
 =============================================================================
